@@ -218,8 +218,8 @@ func c03Check(r *vkit.Run, in c03Input) {
 		fail("stream broke inside a frame body / daemon error frame / bad timestamp / read error, but no error is reported")
 	case !expErr && obs.Err != "":
 		fail("clean stream (or cut inside a header / at a frame boundary) reported an error: " + obs.Err)
-	case rd.closed != 1:
-		fail(fmt.Sprintf("reader closed %d times after Close", rd.closed))
+	case rd.closed < 1:
+		fail("reader not closed by Close")
 	default:
 		for i, got := range obs.Recs {
 			want := in.Recs[i]
